@@ -309,12 +309,17 @@ func (db *RockDB) ZAdd(ts int64, key []byte, args ...common.ScorePair) (int64, e
 	defer wb.Clear()
 
 	var num int64
+	// the same member may be given more than once, the last score wins and it is counted once
+	lastIdx := lastOccurrenceIndexes(len(args), func(i int) []byte { return args[i].Member })
 	for i := 0; i < len(args); i++ {
 		score := args[i].Score
 		member := args[i].Member
 
 		if err := common.CheckKeySubKey(key, member); err != nil {
 			return 0, err
+		}
+		if lastIdx != nil && lastIdx[string(member)] != i {
+			continue
 		}
 		if n, err := db.zSetItem(table, keyInfo.VerKey, score, member, wb); err != nil {
 			return 0, err
